@@ -393,6 +393,8 @@ Http::One::RequestParser::doParse(const SBuf &aBuf)
         if (!grabMimeBlock("Request", Config.maxRequestHeaderSize)) {
             if (parseStatusCode == Http::scHeaderTooLarge)
                 parseStatusCode = Http::scRequestHeaderFieldsTooLarge;
+            else if (parseStatusCode == Http::scInvalidHeader)
+                parseStatusCode = Http::scBadRequest;
             return false;
         }
     }
